@@ -37,6 +37,7 @@ var (
 	params  map[string]string
 	emitOn  bool
 	missing []string
+	failed  []string
 )
 
 type assertFailure struct{ name string }
@@ -125,13 +126,18 @@ func Assume(cond bool) {
 	}
 }
 
+// Assert records a failed assertion and lets the harness continue, as the
+// symbolic engine does, so that every assertion that fails on the recorded
+// inputs is reported.
 func Assert(name string, cond bool) {
 	if !cond {
-		panic(assertFailure{name})
+		mu.Lock()
+		failed = append(failed, name)
+		mu.Unlock()
 	}
 }
 
-func Fail(name string)               { panic(assertFailure{name}) }
+func Fail(name string)               { Assert(name, false) }
 func Tag(name string, v interface{}) {}
 func Note(msg string)                {}
 func Symbolic() bool                 { return false }
@@ -172,7 +178,11 @@ func RunReplay(t *testing.T, file string, fn func()) {
 			r := recover()
 			switch r := r.(type) {
 			case nil:
-				done <- "ok"
+				if len(failed) > 0 {
+					done <- "failed"
+				} else {
+					done <- "ok"
+				}
 			case assertFailure:
 				done <- "assert " + strconv.Quote(r.name)
 			case assumeFailure:
@@ -185,7 +195,12 @@ func RunReplay(t *testing.T, file string, fn func()) {
 	}()
 	select {
 	case res := <-done:
-		fmt.Println("REPLAY-RESULT: " + res)
+		for _, f := range failed {
+			fmt.Println("REPLAY-RESULT: assert " + strconv.Quote(f))
+		}
+		if res != "failed" {
+			fmt.Println("REPLAY-RESULT: " + res)
+		}
 		if len(missing) > 0 {
 			fmt.Println("REPLAY-NOTE: inputs not in the recording (defaulted to zero):", missing)
 		}
